@@ -200,6 +200,13 @@ class SyncIter(Iterable):
         if self._stopped is None:
             return
         self._stopped.set()
+        while self._worker_thread.is_alive():
+            # The worker may be blocked putting into the full queue and would never
+            # see the flag; keep draining until it has exited.
+            try:
+                self._q.get(timeout=0.01)
+            except queue.Empty:
+                pass
         self._worker_thread.join()
         self._stopped = None
 
